@@ -11,7 +11,7 @@ import builtins as _b
 import z3
 
 from .core import Unsupported, concretize, decide, ex
-from .rope import Seg, SymBytes, as_rope, norm
+from .rope import IntSeg, Seg, SymBytes, as_rope, norm
 
 
 class World:
@@ -47,6 +47,9 @@ class World:
         segs = norm(as_rope(rope).segs)
         out = []
         for s in segs:
+            if isinstance(s, IntSeg):
+                out.append(("i", s.v if isinstance(s.v, int) else _b.str(s.v.t), s.width, s.order))
+                continue
             m = s.materialized()
             if m is not None:
                 out.append(("c", m))
